@@ -580,15 +580,18 @@ def run_check(mod, tier, seed):
         extra = getattr(mod, 'extra_checks', None)
         extra_info = {}
         if extra:
+          try:
             for item in extra(ck, tier, rng):
-                # item: dict(name, evaluations, failures=[(desc, detail)], info)
-                extra_info[item['name']] = {k: item[k] for k in item if k not in ('failures',)}
-                for (desc, detail, found) in item.get('failures', []):
-                    k = ck.match_known('extra', item['name'], desc, detail)
-                    if k:
-                        ck.known_hits[k['id']] = ck.known_hits.get(k['id'], 0) + 1
-                    else:
-                        violations.append({'kind': 'extra:' + item['name'], 'case': desc, 'detail': detail, 'failing_input_found': found})
+                  # item: dict(name, evaluations, failures=[(desc, detail)], info)
+                  extra_info[item['name']] = {k: item[k] for k in item if k not in ('failures',)}
+                  for (desc, detail, found) in item.get('failures', []):
+                      k = ck.match_known('extra', item['name'], desc, detail)
+                      if k:
+                          ck.known_hits[k['id']] = ck.known_hits.get(k['id'], 0) + 1
+                      else:
+                          violations.append({'kind': 'extra:' + item['name'], 'case': desc, 'detail': detail, 'failing_input_found': found})
+          except Exception as e:
+            violations.append({'kind': 'extra:crashed', 'what': 'a property-specific extra check raised %r (the implementation no longer offers what the check observes, or the harness is broken)\n%s' % (e, traceback.format_exc()[-1200:]), 'failing_input_found': False})
 
         # ---- classify oracle failures (each is a concrete failing input on the implementation)
         new_oracle = []
